@@ -57,10 +57,11 @@ G_RULES = [["alice", "admin"], ["bob", "admin"], ["admin", "root"]]
 
 
 class ListAdapter:
-    """a minimal in-memory adapter (delivers `rules` on load; accepts every auto-save call)"""
+    """a minimal in-memory adapter: delivers its rules on load and mirrors every auto-save call in ARRIVAL order (adds are
+    appended, updates replace in place), so that a reload presents the rules in the order they arrived"""
 
     def __init__(self, casbin, rules):
-        self.rules = rules
+        self.rules = [(s_, p_, list(r)) for s_, p_, r in rules]
 
     def load_policy(self, model):
         for sec, ptype, rule in self.rules:
@@ -69,26 +70,36 @@ class ListAdapter:
     def save_policy(self, model):
         return True
 
+    def _has(self, sec, ptype, rule):
+        return (sec, ptype, list(rule)) in self.rules
+
     def add_policy(self, sec, ptype, rule):
-        pass
+        if not self._has(sec, ptype, rule):
+            self.rules.append((sec, ptype, list(rule)))
 
     def add_policies(self, sec, ptype, rules):
-        pass
+        for r in rules:
+            self.add_policy(sec, ptype, r)
 
     def remove_policy(self, sec, ptype, rule):
-        pass
+        self.rules = [x for x in self.rules if x != (sec, ptype, list(rule))]
 
     def remove_policies(self, sec, ptype, rules):
-        pass
+        for r in rules:
+            self.remove_policy(sec, ptype, r)
 
     def remove_filtered_policy(self, sec, ptype, field_index, *field_values):
-        pass
+        def m(rule):
+            return all(v == "" or (field_index + i < len(rule) and rule[field_index + i] == v) for i, v in enumerate(field_values))
+
+        self.rules = [x for x in self.rules if not (x[0] == sec and x[1] == ptype and m(x[2]))]
 
     def update_policy(self, sec, ptype, old_rule, new_rule):
-        pass
+        self.rules = [(sec, ptype, list(new_rule)) if x == (sec, ptype, list(old_rule)) else x for x in self.rules]
 
     def update_policies(self, sec, ptype, old_rules, new_rules):
-        pass
+        for o, n in zip(old_rules, new_rules):
+            self.update_policy(sec, ptype, o, n)
 
 
 def make_adapter(casbin, rules):
@@ -150,6 +161,13 @@ def lean_line(op, pi, pt):
         return "\t".join(["removewitheffected", k, enc_rules(op[3])])
     if name == "values":
         return "\t".join(["values", k, str(op[3])])
+    if name == "clearall":
+        return "\t".join(["clearkey", k])
+    if name == "reload":
+        # load_policy from the mirrored store: the stored order is the stable sort of what the store holds (= arrival order)
+        return "\t".join(["sortprio", k, pis]) if pis != "-" else "\t".join(["get", k, pis])
+    if name == "autobuild":
+        return "\t".join(["get", k, pis])  # a flag: no change of the rule set
     if name == "updatefiltered":
         return "\t".join(["updatefiltered", k, enc_rules(op[3]), str(op[4]), enc_list([enc_str(v) for v in op[5]])])
     if name == "removeread":
@@ -213,6 +231,17 @@ def impl_call(e, op, form):
         return e.enforce(*op[3])
     if name == "getfiltered":
         return cp(e.get_filtered_named_grouping_policy(ptype, op[3], *op[4]) if G else e.get_filtered_named_policy(ptype, op[3], *op[4]))
+    if name == "clearall":
+        # clear_policy never talks to the adapter; the harness empties the store as well, so that it keeps mirroring memory
+        ad = e.get_adapter()
+        if ad is not None and hasattr(ad, "rules"):
+            ad.rules = []
+        return e.clear_policy()
+    if name == "reload":
+        return e.load_policy()
+    if name == "autobuild":
+        e.enable_auto_build_role_links(op[3])
+        return cp(e.get_named_grouping_policy(ptype) if G else e.get_named_policy(ptype))
     if name == "updatefiltered":
         return e.update_filtered_policies(cp(op[3]), op[4], *op[5]) if unnamed else e.update_filtered_named_policies(ptype, cp(op[3]), op[4], *op[5])
     if name == "removeread":
@@ -272,7 +301,7 @@ def unit_call(m, op):
 
 # ------------------------------------------------------------------ histories
 
-MUTATORS = ("add", "addmany", "remove", "removemany", "removefiltered", "update", "updatemany", "removewitheffected", "removeread", "updateread", "updatefiltered")
+MUTATORS = ("add", "addmany", "remove", "removemany", "removefiltered", "update", "updatemany", "removewitheffected", "removeread", "updateread", "updatefiltered", "clearall", "reload")
 
 
 def op_alphabet(sec, ptype, rules, with_update=True, read_fed=False):
